@@ -71,6 +71,10 @@ pub fn err_class(e: &minicbor::decode::Error) -> &'static str {
 
 /// Does the observation satisfy one of the specification's outcome patterns?
 pub fn matches(obs: &Value, pats: &Value) -> bool {
+    // a record of expected observables (stateful replays): every listed field must be equal
+    if let Some(o) = pats.as_object() {
+        return o.iter().all(|(k, v)| &obs[k] == v)
+    }
     let pats = match pats.as_array() { Some(a) => a, None => return false };
     pats.iter().any(|p| match p["p"].as_str() {
         Some("any") => obs["p"] != "panic",
